@@ -5,11 +5,11 @@
 From Coq Require Import NArith ZArith List.
 From Coq.Strings Require Import Byte.
 From PyRtcm Require Import Base.Bytes Model.Types Model.Reader Model.Socket Spec.StreamLaw Spec.ChunkGrammar
-  Proofs.SocketProofs Proofs.ChunkProofs Proofs.ChunkReadProofs.
+  Spec.Items Spec.ExactStream Model.Crc Proofs.SocketProofs Proofs.ChunkProofs Proofs.ChunkReadProofs Proofs.ReaderComplete Proofs.ReaderSocket Proofs.ReaderChunked Proofs.CrcProofs.
 Import ListNotations. Open Scope nat_scope.
 
 Theorem C12_segmentation : forall dz chunks last segs,
-  wf_chunked chunks last -> concat segs = render chunks last -> Forall (fun s => s <> []) segs ->
+  wf_chunked chunks last -> concat segs = ChunkGrammar.render chunks last -> Forall (fun s => s <> []) segs ->
   delivered (feed dz segs) = decoded dz chunks /\ unm (feed dz segs) = false.
 Proof. exact ChunkProofs.C12_segmentation. Qed.
 Goal True. idtac "PA:C12_segmentation". Abort.
@@ -18,7 +18,7 @@ Print Assumptions C12_segmentation.
 (* reads interleaved with receives, timeouts and empty packets anywhere: what has been handed out plus what is buffered is
    always the decoding of a prefix of the chunk list, and of all of it once the events are exhausted *)
 Theorem C12_reads : forall dz chunks last, wf_chunked chunks last ->
-  forall e ns outs s', datas e = render chunks last -> reads_c dz ns (sock_init true dz e) = (outs, s') ->
+  forall e ns outs s', datas e = ChunkGrammar.render chunks last -> reads_c dz ns (sock_init true dz e) = (outs, s') ->
   unm s' = false /\ Forall2 (fun n o => length o = n \/ o = []) ns outs /\
   (exists done todo, chunks = done ++ todo /\ concat outs ++ buf s' = decoded dz done) /\
   (evs s' = [] -> concat outs ++ buf s' = decoded dz chunks).
@@ -27,7 +27,7 @@ Goal True. idtac "PA:C12_reads". Abort.
 Print Assumptions C12_reads.
 
 Theorem C12_reads_full : forall dz chunks last, wf_chunked chunks last ->
-  forall segs ns outs s', concat segs = render chunks last -> Forall (fun d => d <> []) segs ->
+  forall segs ns outs s', concat segs = ChunkGrammar.render chunks last -> Forall (fun d => d <> []) segs ->
   list_sum ns <= length (decoded dz chunks) -> reads_c dz ns (start (map Data segs)) = (outs, s') ->
   Forall2 (fun n o => length o = n) ns outs /\ concat outs = firstn (list_sum ns) (decoded dz chunks) /\ unm s' = false.
 Proof. exact ChunkReadProofs.C12_reads_full. Qed.
@@ -36,8 +36,33 @@ Print Assumptions C12_reads_full.
 
 (* the chunked socket is a lawful stream whose content is the decoded body: the reader theorems (C01, C04) apply to it *)
 Theorem C12_stream_content : forall dz chunks last, wf_chunked chunks last ->
-  forall e, datas e = render chunks last ->
+  forall e, datas e = ChunkGrammar.render chunks last ->
   cpending true dz (sock_init true dz e) = decoded dz chunks /\ cpending true dz (start e) = decoded dz chunks.
 Proof. exact ChunkReadProofs.C12_content. Qed.
 Goal True. idtac "PA:C12_stream_content". Abort.
 Print Assumptions C12_stream_content.
+
+(* END TO END: the reader over a chunked-transfer socket delivers exactly the messages of the decoded body -- the same complete
+   per-read trace as over a file holding the decoded bytes -- for every chunking of the body, every rendering of the size lines,
+   every placement of the receive boundaries, every error mode and constructor (dz must not lengthen a chunk: true for plain
+   chunked transfer; an expanding decompressor can exhaust the model's readline fuel) *)
+Section EndToEnd.
+Context {M : Type}.
+Variable dz : bytes -> bytes.
+Hypothesis Hdz : forall c, length (dz c) <= length c.
+Variable construct : bytes -> Z -> outcome M.
+Variable nmea_hdr : list bytes.
+Hypothesis Hnmea : nmea_hdr_ok nmea_hdr.
+Theorem C12_reader_chunked_eq_file : forall chunks last segs items c fuel n,
+  wf_chunked chunks last -> Forall (fun d => d <> []) segs -> concat segs = ChunkGrammar.render chunks last ->
+  decoded dz chunks = stream_of items -> Forall (wf_item nmea_hdr) items -> Forall crlf_item items ->
+  (Z.land (validate c) 1 <> 0%Z \/ no_damaged items) -> parsed c = true ->
+  length (stream_of items) < fuel -> length items < n ->
+  fst (iterate (sock_ops true dz) construct nmea_hdr [xb5; x62] 1%Z 2%Z 1%Z c fuel n (sock_init true dz (map Data segs)))
+    = trace construct (labelmsm c) (quitonerror c) [] items /\
+  fst (iterate (sock_ops true dz) construct nmea_hdr [xb5; x62] 1%Z 2%Z 1%Z c fuel n (sock_init true dz (map Data segs)))
+    = fst (iterate file_ops construct nmea_hdr [xb5; x62] 1%Z 2%Z 1%Z c fuel n (file_stream (stream_of items))).
+Proof. exact (reader_chunked_eq_file dz Hdz construct nmea_hdr Hnmea (Hcrc_of_self_check crc_self_check)). Qed.
+End EndToEnd.
+Goal True. idtac "PA:C12_reader_chunked_eq_file". Abort.
+Print Assumptions C12_reader_chunked_eq_file.
